@@ -351,7 +351,16 @@ func main() {
 	}
 	res := hx.NewResult(o, rules[prop])
 	rnd := hx.NewRand(o.Seed)
-	n := o.Count(400, 12000)
+	// ENG_CORPUS_ONLY=1: only the hand-written corpus entries of every stream (used to confirm that every seeded change and
+	// every repaired defect has a deterministic input of the needed shape, independent of generator probabilities)
+	corpusOnly := os.Getenv("ENG_CORPUS_ONLY") != ""
+	count := func(q, t int) int {
+		if corpusOnly {
+			return 0
+		}
+		return o.Count(q, t)
+	}
+	n := count(400, 12000)
 	cfg := GenCfg{}
 	if prop == "C05" {
 		cfg = GenCfg{Adversarial: true, SmallLimits: true}
@@ -395,6 +404,10 @@ func main() {
 
 	emitVoice := emit // voice flows are part of the model (dial waits begin, dial_wait events count as waits)
 	if o.Replay != "" && prop == "C05" && replayPayload(o.Replay, res) {
+		res.Write(o)
+		return
+	}
+	if o.Replay != "" && prop == "C05" && replayReader(o.Replay, res) {
 		res.Write(o)
 		return
 	}
@@ -509,19 +522,23 @@ func main() {
 	flush()
 	if prop == "C05" && !hung {
 		// the payload-length clause on action types outside the modelled fragment (direct oracle only)
-		payloadStream(rnd.Fork("payload"), o.Count(300, 6000), res)
+		payloadStream(rnd.Fork("payload"), count(300, 6000), res)
 	}
 	if prop == "C01" && !hung {
 		// flow assets whose asset UUID differs from the uuid inside their definition (direct oracle only)
-		aliasStream(rnd.Fork("alias"), o.Count(120, 2500), res)
+		aliasStream(rnd.Fork("alias"), count(120, 2500), res)
 	}
 	if prop == "C05" && !hung && o.Replay == "" {
 		deepProbe(prop, res)
 		amplifyProbe(prop, uint64(o.Seed), res)
 	}
+	if prop == "C05" && !hung {
+		// documents the host hands to Engine.ReadSession / ReadContact / ReadTrigger / ReadResume / ReadModifier, mutated
+		readerStream(rnd.Fork("reader"), count(2500, 40000), res)
+	}
 	if (prop == "C05" || prop == "C10") && !hung {
 		// definitions outside the modelled fragment: flow types changed between sprints, odd reference lists
-		defStream(prop, rnd.Fork("definitions"), o.Count(150, 3000), res)
+		defStream(prop, rnd.Fork("definitions"), count(150, 3000), res)
 	}
 	res.Write(o)
 }
